@@ -1,17 +1,9 @@
 import IcyVerif.Drv.ColorOpt
-import IcyVerif.Drv.Comp
-import IcyVerif.Drv.Crc
-import IcyVerif.Drv.Term
-import IcyVerif.Drv.XbCompress
 open IcyVerif.Drv
 
 def dispatch (line : String) : String :=
   match line.trimAscii.toString.splitOn " " with
   | "coloropt" :: rest => ColorOpt.handle rest
-  | "comp" :: rest => Comp.handle rest
-  | "crc" :: rest => Crc.handle rest
-  | "term" :: rest => Term.handle rest
-  | "xbcompress" :: rest => XbCompress.handle rest
   | _ => "bad-op"
 
 partial def loop (h : IO.FS.Stream) (out : IO.FS.Stream) : IO Unit := do
